@@ -101,8 +101,9 @@ impl HashCache {
                 .modified()
                 .map_err(|e| format!("Unable to get file modification timestamp: {e}"))?
                 .duration_since(UNIX_EPOCH)
-                .unwrap_or(Duration::ZERO)
-                .as_millis() as u64,
+                .map(|d| d.as_millis() as u64)
+                // times before the epoch must remain distinguishable as well
+                .unwrap_or_else(|e| (e.duration().as_millis() as u64).wrapping_neg()),
             file_len: file.len(),
             data_len,
             hash,
@@ -142,8 +143,8 @@ impl HashCache {
             .modified()
             .map_err(|e| format!("Unable to get file modification timestamp: {e}"))?
             .duration_since(UNIX_EPOCH)
-            .unwrap_or(Duration::ZERO)
-            .as_millis() as u64;
+            .map(|d| d.as_millis() as u64)
+            .unwrap_or_else(|e| (e.duration().as_millis() as u64).wrapping_neg());
 
         if value.modified_timestamp_ms != modified || value.file_len != metadata.len() {
             Ok(None) // found in cache, but the file has changed since it was cached
